@@ -50,7 +50,8 @@ AddVar(f, k, a0) ==
       a == [a0 EXCEPT !.aattrs = [j \in 1..Len(a0.dims) |->
                  IF HasDimF(f, a0.dims[j]) THEN f.axes[CHOOSE q \in 1..Len(f.dims) : f.dims[q] = a0.dims[j]].aattrs ELSE a0.aattrs[j]]]
   IN [f EXCEPT !.dims = f.dims \o newd,
-               !.axes = f.axes \o [i \in 1..Len(newd) |-> [AxisOf(newd[i]) EXCEPT !.aattrs = a0.aattrs[DimPos(a0, newd[i])]]],
+               !.axes = f.axes \o [i \in 1..Len(newd) |-> LET q == DimPos(a0, newd[i]) IN
+                                                         [name |-> newd[i], kind |-> a0.kinds[q], labs |-> a0.labs[q], aattrs |-> a0.aattrs[q]]],
                !.vars = IF HasVar(f, k)
                         THEN [i \in 1..Len(f.vars) |-> IF f.vars[i].key = k
                                                        THEN [key |-> k, arr |-> [a EXCEPT !.attrs = IF a.attrs = 0 THEN f.vars[i].arr.attrs ELSE a.attrs]]
@@ -66,16 +67,17 @@ Bound == Len(hist) < MaxDepth
 Init == file = Absent /\ hist = <<>>
 
 \* Dataset({keys: pool arrays}).write_nc(f, mode='w', format=fmt)  with dataset metadata id g
-WriteDataset(idxs, fmt, g) ==
-  /\ Bound /\ Len(idxs) <= Len(Keys)
-  /\ (fmt # "NETCDF4" => \A i \in 1..Len(idxs) : StrFree(Pool[idxs[i]]))
-  /\ file' = [AddAll(Empty(fmt), SubSeq(Keys, 1, Len(idxs)), [i \in 1..Len(idxs) |-> Pool[idxs[i]]]) EXCEPT !.gattrs = g]
-  /\ Record("write_dataset", [idxs |-> idxs, fmt |-> fmt, g |-> g, k |-> "", mode |-> ""], TRUE)
+WriteDatasetA(arrs, tag, fmt, g) ==
+  /\ Bound /\ Len(arrs) <= Len(Keys)
+  /\ (fmt # "NETCDF4" => \A i \in 1..Len(arrs) : StrFree(arrs[i]))
+  /\ file' = [AddAll(Empty(fmt), SubSeq(Keys, 1, Len(arrs)), arrs) EXCEPT !.gattrs = g]
+  /\ Record("write_dataset", [idxs |-> tag, fmt |-> fmt, g |-> g, k |-> "", mode |-> ""], TRUE)
+WriteDataset(idxs, fmt, g) == WriteDatasetA([i \in 1..Len(idxs) |-> Pool[idxs[i]]], idxs, fmt, g)
 
-\* pool[i].write_nc(f, name=k, mode=m, format=fmt)
-WriteArray(i, k, m, fmt) ==
+\* a.write_nc(f, name=k, mode=m, format=fmt) for an explicit array a; `tag` is what the event records about the array
+WriteArrayA(a, tag, k, m, fmt) ==
   /\ Bound
-  /\ LET a == Pool[i]
+  /\ LET dummy == 0
          exists == file.present
          fresh == m = "w" \/ (m \in {"w-", "a+"} /\ ~exists)
          fails == (m = "w-" /\ exists) \/ (m = "a" /\ ~exists)
@@ -84,17 +86,19 @@ WriteArray(i, k, m, fmt) ==
         /\ (~fresh /\ ~fails /\ file.format # "NETCDF4" => StrFree(a))
         \* overwriting an existing variable requires the same dimensions
         /\ (~fresh /\ ~fails /\ HasVar(file, k) => VarOf(file, k).dims = a.dims /\ VarOf(file, k).dtype = a.dtype)
-        /\ IF fails THEN UNCHANGED file /\ Record("write_array", [idxs |-> <<i>>, fmt |-> fmt, g |-> 0, k |-> k, mode |-> m], FALSE)
-           ELSE file' = AddVar(target, k, a) /\ Record("write_array", [idxs |-> <<i>>, fmt |-> fmt, g |-> 0, k |-> k, mode |-> m], TRUE)
+        /\ IF fails THEN UNCHANGED file /\ Record("write_array", [idxs |-> tag, fmt |-> fmt, g |-> 0, k |-> k, mode |-> m], FALSE)
+           ELSE file' = AddVar(target, k, a) /\ Record("write_array", [idxs |-> tag, fmt |-> fmt, g |-> 0, k |-> k, mode |-> m], TRUE)
+WriteArray(i, k, m, fmt) == WriteArrayA(Pool[i], <<i>>, k, m, fmt)
 
-\* with open_nc(f, 'a') as ds: ds[k] = pool[i]
-OpenSetItem(i, k) ==
+\* with open_nc(f, 'a') as ds: ds[k] = a
+OpenSetItemA(a, tag, k) ==
   /\ Bound /\ file.present
-  /\ LET a == Pool[i] IN
+  /\ LET dummy == 0 IN
      /\ (file.format # "NETCDF4" => StrFree(a))
      /\ (HasVar(file, k) => VarOf(file, k).dims = a.dims /\ VarOf(file, k).dtype = a.dtype)
      /\ file' = AddVar(file, k, a)
-     /\ Record("open_setitem", [idxs |-> <<i>>, fmt |-> "", g |-> 0, k |-> k, mode |-> "a"], TRUE)
+     /\ Record("open_setitem", [idxs |-> tag, fmt |-> "", g |-> 0, k |-> k, mode |-> "a"], TRUE)
+OpenSetItem(i, k) == OpenSetItemA(Pool[i], <<i>>, k)
 
 Next ==
   \/ \E n \in 0..2 : \E idxs \in [1..n -> DsPool] : \E fmt \in Formats : \E g \in {0, 9} : WriteDataset(idxs, fmt, g)
